@@ -15,12 +15,15 @@ PrimGo == {GNum("int", Qn(0)), GNum("int", Qn(-12)), GNum("int8", Qn(508)), GNum
            GNum("int32", LM("i32max")), GNum("int32", LM("i32min")), GNum("int64", LM("i64max")), GNum("int64", LM("i64min")),
            GNum("uint", LM("u64max")), GNum("uint8", Qn(1020)), GNum("uint16", LM("u16max")), GNum("uint32", LM("u32max")), GNum("uint64", LM("u64max")), GNum("uint64", LM("i64maxp")),
            GNum("float32", Qn(2)), GNum("float32", LM("f32max")), GNum("float32", PInf), GNum("float64", Qn(-10)), GNum("float64", LM("f64max")), GNum("float64", NInf), GNum("float64", LM("f64int")),
+           \* arbitrary-precision Go numbers: whole numbers needing 65, 100 and about 1000 bits, fractions held at 512 bits
+           GNum("bigint", Qn(-12)), GNum("bigint", LM("u64maxpp")), GNum("bigint", LM("e30")), GNum("bigint", LM("e300")), GNum("bigint", LM("i64minm")),
+           GNum("bigfloat", Qn(2)), GNum("bigfloat", LM("tenth")), GNum("bigfloat", LM("third")), GNum("bigfloat", LM("e30")), GNum("bigfloat", LM("almost1")),
            GStrV(<<>>), GStrV(<<"a", "b">>), GStrV(<<"e", "acute">>), GBoolV(TRUE), GBoolV(FALSE)}
 SliceOf(e, vs, isnil) == [t |-> GSlice(e), nil |-> isnil, vs |-> vs]
 MapOf(e, m, isnil) == [t |-> GMap(e), nil |-> isnil, m |-> m]
 PtrTo(e, v, isnil) == [t |-> GPtr(e), nil |-> isnil, v |-> v]
 ByT(e) == {x \in PrimGo : x.t = e}
-ElemKinds == {GPrim("int"), GPrim("uint64"), GPrim("string"), GPrim("float64"), GPrim("bool")}
+ElemKinds == {GPrim("int"), GPrim("uint64"), GPrim("string"), GPrim("float64"), GPrim("bool"), GPrim("bigint")}
 Comp1 == UNION {{SliceOf(e, <<>>, TRUE), SliceOf(e, <<>>, FALSE)} \cup {SliceOf(e, s, FALSE) : s \in SeqsUpTo(TakeN(ByT(e), 2), 2) \ {<<>>}} : e \in ElemKinds}
       \cup UNION {{MapOf(e, <<>>, TRUE), MapOf(e, <<>>, FALSE)} \cup {MapOf(e, m, FALSE) : m \in RecsOver({"a", "b"}, TakeN(ByT(e), 2)) \ {<<>>}} : e \in {GPrim("int"), GPrim("string")}}
       \cup UNION {{PtrTo(e, CHOOSE x \in ByT(e) : TRUE, TRUE)} \cup {PtrTo(e, x, FALSE) : x \in TakeN(ByT(e), 2)} : e \in {GPrim("int"), GPrim("string"), GPrim("bool")}}
@@ -34,7 +37,9 @@ Comp2 == {SliceOf(x.t, <<x, y>>, FALSE) : x \in TakeN(Comp1, 6), y \in TakeN(Com
          \cup {[t |-> GCty, v |-> v] : v \in {NumV(4), Unk(TStr, NoRf), Null(TBool), SeqV(TList(TNum), <<NumV(0)>>)}}
 Comp2Typed == {x \in Comp2 : x.t.g # "slice" \/ x.vs = <<>> \/ \A i \in 1..Len(x.vs) : x.vs[i].t = x.t.e}
 Recs == {[t |-> GRec1, a |-> GNum("int", Qn(28))], [t |-> GRec2, a |-> GStrV(<<"a", "b">>), c |-> GBoolV(TRUE)], [t |-> GRec1, a |-> GNum("int", Qn(0))], [t |-> GRec2, a |-> GStrV(<<>>), c |-> GBoolV(FALSE)]}
-RtLines == {[k |-> "grt", gv |-> x] : x \in PrimGo \cup Comp1 \cup Structs \cup Comp2Typed \cup Recs \cup {SliceOf(GRec2, <<r>>, FALSE) : r \in {x \in Recs : x.t = GRec2}}}
+\* ct: the cty type to convert to (the reference implied type; for Go types holding big numbers there is no implied type and the
+\* caller names the type, as the property says)
+RtLines == {[k |-> "grt", gv |-> x, ct |-> ImpliedTypeRef(x.t)] : x \in PrimGo \cup Comp1 \cup Structs \cup Comp2Typed \cup Recs \cup {SliceOf(GRec2, <<r>>, FALSE) : r \in {x \in Recs : x.t = GRec2}}}
 \* cty values x target Go types
 Targets == {GPrim(k) : k \in {"int", "int8", "uint16", "float32", "float64", "string", "bool"}} \cup {GSlice(GPrim("int")), GSlice(GPrim("string")), GMap(GPrim("int")), GMap(GPrim("string")),
             GPtr(GPrim("int")), GPtr(GPrim("string")), GPtr(GSlice(GPrim("int"))), GStruct, GRec1, GRec2, GCty, GSlice(GCty), GSlice(GStruct), GMap(GPtr(GPrim("string")))}
